@@ -217,9 +217,10 @@ Fixpoint skip_trivia (ts : list tok) (start : Z) : result Z :=
 
 Definition space_tok : tok := mk_tok KSpace strip_replacement_data 0 0 [] None strip_replacement_data.
 
-(* tokens[start:end] = [TokSpace(b' ')]  for 0 <= start <= end <= len *)
+(* tokens[start:end] = [TokSpace(b' ')]  for 0 <= start, 0 <= end (a slice whose end lies before its
+   start is the empty slice at start) *)
 Definition splice (ts : list tok) (a b : Z) : list tok :=
-  firstn (Z.to_nat a) ts ++ space_tok :: skipn (Z.to_nat b) ts.
+  firstn (Z.to_nat a) ts ++ space_tok :: skipn (Z.to_nat (Z.max a b)) ts.
 
 (* for s in reversed(root.stats): ... *)
 Fixpoint strip_stats (stats_rev : list tree) (ts : list tok) : result (list tok) :=
